@@ -1,6 +1,7 @@
 package rules
 
 import (
+	"fmt"
 	"strings"
 
 	"golang.org/x/tools/go/ssa"
@@ -9,6 +10,60 @@ import (
 )
 
 // Shared analysis of p2p/session.go used by C05 and C18.
+
+// checkRemainderRequest: a short answer re-requests exactly the remainder
+// (origin = last received height + 1, amount = req.Amount − len(h)) only when
+// something remains, and what was received is still delivered. Used as C18.b
+// and (contiguity of the assembled range) as C05.f.
+func checkRemainderRequest(c *an.Ctx, id string, s *sessionFns) {
+	dt, df := c.T(s.doReq), c.F(s.doReq)
+	pcs := callsTo(s.doReq, s.sProc)
+	if len(pcs) != 1 {
+		c.Undecided(id, "processResponses-call", "doRequest decodes the response once", s.doReq, nil, "unexpected number of session.processResponses calls")
+		return
+	}
+	hT := dt.Of(pcs[0]) + "#0"
+	eT := dt.Of(pcs[0]) + "#1"
+	remaining := "(-len(" + hT + ")+p3.Amount)"
+	nRem := 0
+	for _, ss := range selectSends(s.doReq) {
+		if !isRecvField(dt, ss.Chan, "reqCh") || dt.Of(ss.Val) == "p3" {
+			continue
+		}
+		nRem++
+		// value = prepareRequests(a0,a1,a2)[0]
+		okShape := false
+		detail := dt.Of(ss.Val)
+		if u, ok := ss.Val.(*ssa.UnOp); ok {
+			if ia, ok := u.X.(*ssa.IndexAddr); ok && dt.Of(ia.Index) == "0" {
+				if call, ok := ia.X.(*ssa.Call); ok && an.StaticCallee(&call.Call) == s.prep {
+					a := call.Call.Args
+					wantOrigin := "(Height(" + hT + "[(len(" + hT + ")-1)])+1)"
+					detail = fmt.Sprintf("prepareRequests(%s, %s, %s)[0]", dt.Of(a[0]), dt.Of(a[1]), dt.Of(a[2]))
+					okShape = dt.Of(a[0]) == wantOrigin && dt.Of(a[1]) == remaining && dt.Of(a[2]) == "p3.Amount"
+				}
+			}
+		}
+		fs := df.AtRefined(ss.Sel.Block())
+		c.Check(okShape && fs.Has(an.NE(remaining, "0")) && fs.Has(an.EQ(eT, "nil")), id, "remainder-request",
+			"a short answer enqueues exactly the remainder: origin = last received height + 1, amount = req.Amount − len(h), only when that amount is non-zero", s.doReq, ss.Sel, detail, fs)
+		// what was received is still delivered
+		selIdx := dt.Of(ss.Sel) + "#0"
+		okDel, bad := (an.Flow{Fn: s.doReq}).MustFollow(ss.Sel, func(in ssa.Instruction) bool {
+			sd, ok := in.(*ssa.Send)
+			return ok && dt.Of(sd.Chan) == "p4"
+		}, func(r *ssa.Return) bool { return df.AtInstr(r).Has(an.EQ(selIdx, "0")) })
+		c.Check(okDel, id, "partial-still-delivered", "after re-requesting the remainder the received headers are still delivered (unless the session was closed)", s.doReq, ss.Sel, fmt.Sprint(bad), nil)
+	}
+	c.Min(id, "remainder re-request sites", nRem, 1)
+	// when nothing remains, no remainder request is made
+	prZero := df.Prune(an.EQ(remaining, "0"))
+	for _, ss := range selectSends(s.doReq) {
+		if isRecvField(dt, ss.Chan, "reqCh") && dt.Of(ss.Val) != "p3" {
+			c.Check(!prZero.Reachable(ss.Sel.Block()), id, "no-remainder-when-complete", "a complete answer does not trigger another request", s.doReq, ss.Sel, "", nil)
+		}
+	}
+}
 
 type sessionFns struct {
 	exGet, sesGet, doReq, sProc, sVerify, withVal, newSes, proc, verifyRange, prep, sendMsg, handleOut *ssa.Function
